@@ -1,15 +1,17 @@
 """C03: SuperMinHash and SuperMinHash2 estimate the Jaccard index without bias."""
 import json
 import vlib
-from props import sklib
+from props import sklib, estlib
 
 ID = "C03"
 LEVEL = "proof"
 PROPERTIES_MODULE = "Properties.C03"
 COQ_TARGETS = ["Properties/C03.vo", "Model/Dispatch.vo"]
-THEOREMS = ["C03_source_flag", "C03_superminhash_is_min", "C03_superminhash2_final", "C03_single_item_is_a_permutation"]
+THEOREMS = ["C03_source_flag", "C03_superminhash_is_min", "C03_superminhash2_final", "C03_single_item_is_a_permutation",
+            "C03_single_item_permutation_uniform", "C03_index_vectors_counted", "C03_collision_share_under_uniform_ranking",
+            "C03_estimator_is_match_fraction"]
 AXIOMS_ALLOWED = []
-TRANSLATORS = [("flags-smh", sklib.translate_flags_smh)]
+TRANSLATORS = [("flags-smh", sklib.translate_flags_smh), estlib.translator("EstSmh")]
 TRUSTED_BASE = [
     "hand models coq/Model/SuperMinHash.v and SuperMinHash2.v tied to the code by per-run correspondence on every field (hooks), "
     "scripts drawn through Uniform<F>, Uniform<usize>(j, m), Uniform<u64> and FYshuffle with the generator state the code uses",
@@ -36,11 +38,13 @@ def correspond(run):
 
 
 def search(run):
+    estlib.search(run, "EstSmh")
+    sklib.direct_props(run, ["reinit-smh", "smh-f", "smh2-"], n=4000)
     rc, js, out, err = vlib.harness(["sk-mc", "--seed", run.seed, "--trials", 3000], timeout=3000)
     if rc != 0 or js is None:
         return
-    for f in js["found"][:1]:
-        if f["sketcher"].startswith("SuperMinHash"):
+    for f in [f for f in js["found"] if f["sketcher"].startswith("SuperMinHash")][:1]:
+        if True:
             run.violation("smh-bias", "%s, m=%d, %s: mean match fraction %.5f vs J = %.5f (z = %.1f over %d trials)" % (
                 f["sketcher"], f["m"], f["family"], f["mean"], f["j"], f["z"], f["trials"]),
                 {"kind": "impl-input", "input": f, "observed": f["mean"], "expected": f["j"]})
